@@ -406,7 +406,7 @@ class Run:
         violations = 0
         grouped = {}
         for sig, hits in sorted(known_hits.items()):
-            m = re.match(r"^(corpus:[^@]+)@([^:]+):(.*)$", sig)
+            m = re.match(r"^((?:corpus|slot):[^@#]+)[^@]*@([^:]+):(.*)$", sig)
             if m:
                 key = m.group(1) + ":" + m.group(3).split(":")[0]
                 g = grouped.setdefault(key, {"configs": [], "what": ksigs[sig].get("what", "")})
